@@ -288,7 +288,7 @@ def faults_part(binary, tier, sd, d, rep):
     for k, (mode, n, pairs) in enumerate(plan):
         pref = os.path.join(d, "c01fe%d" % k)
         cmd = [binary, "faultenum", "-mode", mode, "-n", str(n), "-seed", str(sd * 100 + 50 + k),
-               "-out", pref]
+               "-out", pref, "-shards", "16" if tier == "quick" else "48"]
         if pairs:
             cmd.append("-pairs")
         rc, out = run(cmd, timeout=3000)
